@@ -19,7 +19,7 @@ RULE = ('one descriptor = (device profile, api sync/async, trigger kind in {link
         'signature) among runs in which the trigger actually fired.')
 ASSUMPTIONS = ['link errors are reported the two ways RadioDriver does: from its own thread, or from inside send_packet '
                'in the calling thread', 'virtual-time horizon of 150 s per blocking call stands in for "bounded time"']
-REQUIRED = ['mon.stale_item_answers_right_in_front_of_the_table_info_answer', 'mon.reconnects_issued_at_once_from_the_failure_notification', 'mon.attempts_with_duplicated_answers', 'mon.close_in_a_port_or_parameter_callback_of_the_application', 'mon.attempts', 'mon.trigger_fired', 'mon.reconnects', 'mon.fault_before_first_packet',
+REQUIRED = ['mon.change_notifications_during_the_value_download', 'mon.stale_item_answers_right_in_front_of_the_table_info_answer', 'mon.reconnects_issued_at_once_from_the_failure_notification', 'mon.attempts_with_duplicated_answers', 'mon.close_in_a_port_or_parameter_callback_of_the_application', 'mon.attempts', 'mon.trigger_fired', 'mon.reconnects', 'mon.fault_before_first_packet',
             'mon.fault_mid_setup', 'mon.fault_after_connected', 'mon.close_in_callback', 'mon.sync_api', 'mon.async_api',
             'mon.line_preempted_runs', 'mon.three_cycle_histories', 'mon.fault_during_driver_connect']
 DESC_TIMEOUT = 1500
@@ -57,7 +57,7 @@ def cases(tier, seed):
                         out.append({'seed': seed * 1000003 + n, 'nlog': nlog, 'nparam': nparam, 'proto': proto,
                                     'mems': mk, 'api': api, 'trigger': trig, 'reporter': reporter, 'sched': pol,
                                     'line_p': lp, 'S': S, 'resend': rnd.random() < 0.3, 'prefault': n % 3 == 0, 'drain': n % 2 == 1,
-                                    'dup': n % 4 == 2})
+                                    'dup': n % 4 == 2, 'notify': n % 3 == 1})
     for i, (nlog, nparam, proto, mk) in enumerate(profiles):
         for reporter in ('sender', 'driver'):
             for (pol, lp) in (scheds if tier == 'thorough' else scheds[:2]):
@@ -94,12 +94,31 @@ def one_run(desc, k, sseed, calibrate=False):
         # every fourth answer arrives twice (the acknowledgement of the first copy was lost on the air)
         drnd = random.Random(desc['seed'] ^ 0xD0B1)
         spec.reply_policy = lambda sp, n, h, d: [(0.0, h, d)] + ([(drnd.choice((0.0, 0.0, 0.0004)), h, d)] if drnd.random() < 0.25 else [])
+    res = {'violations': [], 'fired': False, 'phase': None, 'kmax': None, 'overlap': False}
+
+    def with_notifications(base):
+        """The firmware tells about a parameter that was changed on board (app layer, deck driver, another client) whenever
+        that happens - also while the values are still being fetched, about a parameter whose value is already here."""
+        if not (desc.get('notify') and desc['proto'] >= 4 and len(dev.params) >= 2):
+            return base
+        nrnd = random.Random(desc['seed'] ^ 0x70F1)
+
+        def pol(sp, n, h, d):
+            outs = base(sp, n, h, d) if base is not None else [(0.0, h, d)]
+            if (h >> 4) & 0xF == 2 and h & 3 == 1 and len(d) >= 3 and nrnd.random() < 0.35:
+                idx = d[0] | (d[1] << 8)
+                if 0 < idx < len(dev.params):
+                    hh, dd = dev.value_updated_packet(nrnd.randrange(idx))
+                    outs = [(0.0, hh, dd)] + outs
+                    res['notified'] = res.get('notified', 0) + 1
+            return outs
+        return pol
+    spec.reply_policy = with_notifications(spec.reply_policy)
     uri = 'sim://c02'
     simlink.SIMS[uri] = spec
     exp_log, exp_param = oracles.expected_log(dev), oracles.expected_param(dev)
     trig = desc['trigger']
     ob = Obs()
-    res = {'violations': [], 'fired': False, 'phase': None, 'kmax': None, 'overlap': False}
 
     def V(mech, detail):
         res['violations'].append((mech, detail))
@@ -240,7 +259,7 @@ def one_run(desc, k, sseed, calibrate=False):
                             outs = [(0.0, simcf.hdr(port, 0), dd)] + outs
                             res['stale_item_before_info'] = res.get('stale_item_before_info', 0) + 1
                     return outs
-                spec.reply_policy = item_before_info
+                spec.reply_policy = with_notifications(item_before_info)
         # ---------------- attempt 1
         attempt['n'] = 1
         spec.fail_reporter = desc['reporter']
@@ -675,6 +694,7 @@ def run(desc, ctx):
                         ctx.count('obs.dead_driver_left_in_cf_link_after_error_during_connect')
             if desc.get('dup'):
                 ctx.count('mon.attempts_with_duplicated_answers')
+            ctx.count('mon.change_notifications_during_the_value_download', res.get('notified', 0))
             ctx.count('mon.stale_item_answers_right_in_front_of_the_table_info_answer', res.get('stale_item_before_info', 0))
             ctx.count('mon.sync_api' if desc['api'] == 'sync' else 'mon.async_api')
             if desc['line_p'] > 0:
